@@ -82,6 +82,12 @@ class CallMixin:
             r = self.resolve_name(q)
             if r is not None and r[0] == 'contract':
                 c = self.reg.contracts[r[1]]
+                if c.kind == 'method':
+                    # an explicitly chosen contract for a bound-method call: the receiver is the first argument
+                    for recv, s0 in self.ev(f.value, st):
+                        for (vs, kw), s in self.ev_args(e, s0):
+                            yield from self.apply_contract(c, [recv] + vs, kw, s, e)
+                    return
                 for (vs, kw), s in self.ev_args(e, st):
                     yield from self.apply_contract(c, vs, kw, s, e)
                 return
